@@ -205,15 +205,16 @@ META = {
                     "the canonical effect; the parser's arms must use the same signs/operands; CellType conversions and constants are checked structurally.",
         not_decided=["correctness of the forward bracket scan (nesting counter arithmetic and its integer width) and of the loop stack", "behaviour of Memory growth (C09)"]),
     "C06": dict(
-        technique="protocol rules (window entry, probe direction, checked/unchecked twins, mode map) on the syntax tree; symbolic evaluation of the JIT's probe/extend template; visitor-completeness of the access-window computation; encoder width tables",
+        technique="protocol rules (window entry, probe direction, checked/unchecked twins, mode map) on the syntax tree; abstract evaluation of the JIT's probe/extend template; visitor-completeness of the access-window computation; encoder width tables; polyhedral forward analysis of the growth arithmetic",
         claim="Decides the protocol that lets straight-line code touch [p+min, p+max] unchecked: every entry and re-establishment calls "
               "make_accessible(min, max+1) (WIN-ENTRY); moves probe the right edge with the moved pointer (PROBE-DIR, PROBE-DIR-JIT, PROBE-SEQ); the "
               "window covers every cell operand by construction (WINDOW-BY-CONSTRUCTION); safe entry points never select unchecked code (SAFE-MAP); "
-              "memory operands have the cell's width (ASM-TABLE, SEL-WIDTH); JIT displacements are the repr(C) offsets (ABI-OFFSETS). Necessary "
-              "conditions of C06; the growth arithmetic of make_accessible is not decided.",
+              "memory operands have the cell's width (ASM-TABLE, SEL-WIDTH); JIT displacements are the repr(C) offsets (ABI-OFFSETS); the placement "
+              "arithmetic of make_accessible puts the requested range and the whole old block inside the new block and moves the pointer with the contents "
+              "(GROW-BOUNDS, assuming additions do not overflow isize/usize). Necessary conditions of C06.",
         note=TRUST + " Layout of Memory/Context is derived from their #[repr(C)] declarations (pointer-sized fields only).",
         explanation="E1 rules over bcint/ops.rs, basejit/codegen.rs, bc.rs, ir.rs and runtime.rs declarations.",
-        not_decided=["the placement arithmetic of Memory::make_accessible (needed_below/needed_above/new_size/added_below): relational arithmetic over unbounded integers",
+        not_decided=["overflow of the size computations of make_accessible near usize::MAX (GROW-BOUNDS assumes additions do not wrap)",
                      "that bytecode operands produced by the optimiser stay inside the window for value-dependent reasons beyond the visitor (C11's undecided clauses)"]),
     "C07": dict(
         technique="budget-gate pairing on every back edge (path rules over the interpreters, template rule over the JIT's limit check), guard rule for budget uses, charge-guard rule",
@@ -235,14 +236,17 @@ META = {
         explanation="E1 rules over inplace.rs, irint.rs, bcint/ops.rs, basejit/mod.rs, llvmjit.rs, runtime.rs and the Inp/Out arms of codegen.rs.",
         not_decided=["absence of panics inside std's Read/Write implementations supplied by the caller"]),
     "C09": dict(
-        technique="guard-dominance rule for raw tape accesses, who-may-call rule for allocation, pairing/ordering rule for reallocation, who-may-write rule for the tape fields",
+        technique="flow analysis of bounds facts at raw tape accesses, who-may-call rule for allocation, pairing/ordering rule for reallocation on MIR, who-may-write rule for the tape fields, polyhedral forward analysis (linear forms, state splitting, Fourier-Motzkin entailment) of the growth arithmetic",
         claim="Decides that reads and queries never allocate (READ-NOALLOC, exact), that every raw access is guarded by the strict unsigned bounds test "
               "or follows make_accessible of that cell (BOUNDS-GUARD), that growth copies before freeing, frees with the old size and updates all "
-              "fields consistently (TAPE-PAIR), and that allocation failure is handled (ALLOC-NULL). Necessary conditions of C09; 'a requested range "
-              "is accessible afterwards' and 'growth preserves contents and the logical pointer' depend on the placement arithmetic and are not decided.",
+              "fields consistently (TAPE-PAIR), that allocation failure is handled (ALLOC-NULL), and the placement arithmetic of make_accessible "
+              "(GROW-BOUNDS: no unsigned subtraction underflows; an early return only when the range is already inside; after growth offset'+start >= 0 and "
+              "offset'+end <= size'; the old block is copied whole to [d, d+size) inside the new block and the pointer moves by d), assuming additions do not "
+              "overflow. Together these are the clauses 'a requested range is accessible afterwards' and 'growth preserves contents and the logical pointer'; "
+              "that read returns the value last written additionally needs the allocator's and ptr::copy's contracts (trusted).",
         note=TRUST,
         explanation="E1 rules over src/runtime.rs.",
-        not_decided=["the arithmetic of needed_below/needed_above/new_size/added_below in make_accessible (three placement cases)"]),
+        not_decided=["overflow of the size computations near usize::MAX (GROW-BOUNDS assumes additions do not wrap)"]),
     "C10": dict(
         technique="sibling agreement of checked/unchecked op variants, symbolic evaluation of the JIT Mov template in both modes, mode map, pre-allocation pairing",
         claim="Decides that unchecked mode is the checked code minus the probe (UNSAFE-TWIN, PROBE-SEQ's unchecked half), that only execute_unsafe "
